@@ -7,11 +7,11 @@ from harness.wire import to_wire, to_py, to_py_shared
 
 # look-alikes of different types ("1" / 1 / True, "None" / None, "2.5" / 2.5, "a|b") keep apart answers that a text-keyed
 # memo or a str()-based comparison would merge
-ATOMS = [None, True, False, 0, 1, 2, 1.5, 2.5, 'a', 'ab', 'a*', '?b', '[a', '[ab]*', '[!a]b', {'x': 1}, (1, 2), dict,
+ATOMS = [None, True, False, 0, 1, 2, 1.5, 2.5, 'a', 'ab', 'a*', '?b', '[a', '[ab]*', '[!a]b', '[ab]', 'a[bc]', {'x': 1}, (1, 2), dict,
          '1', '2.5', 'None', 'True', 'a|b']
-OPS = ['=', '<', '<=', '>', '>=', '??', 5]
+OPS = ['=', '<', '<=', '>', '>=', '??', 5, ['<', '='], {'name': '<'}]        # (an operator field may hold anything)
 OP_VALUES = [None, False, 1, 2.5, 'ab', [1], [1, 'a'], (1, 2), {'x': 1}]
-MD_VALUES = ['<absent>', None, False, True, 1, 2, 2.5, 'a', 'ab', 'b', [1], [1, 'a'], [2], {'x': 1}, (1, 2), (1, 3), dict, str,
+MD_VALUES = ['<absent>', None, False, True, 1, 2, 2.5, 'a', 'ab', 'b', 'bb', 'ac', [1], [1, 'a'], [2], {'x': 1}, (1, 2), (1, 3), dict, str,
              '1', '2.5', 'None', 'True', 'b|a', "{'x': 1}", '(1, 2)', '[1]']
 
 
